@@ -126,6 +126,19 @@ def run(ctx):
             val = A.peel(e[2][2])
             src = val[1][2] if val[0] == "field" and val[1][0] == "downcast" else None
             table[dst] = (vs, src, A.last_field(val))
+        # every record of every name is converted: the record an address is taken from is the element of an iteration
+        # over the name's record list (not its first element, not an index)
+        visited = []
+        for f_ in prog.family(g.key):
+            fr_ = gr if f_ is g else A.Resolver(f_)
+            for b, t in A.call_blocks(f_, A.name_is(Z + "ZoneRecord::to_rr")):
+                zr = fr_.call_expr(t, b)[2][0]
+                src = A.iter_elem_source(zr)
+                if f_ is not g and A.peel(zr)[0] == "param":
+                    visited.append(True)          # the element an iterator adaptor hands to its closure (`.map(|zr| zr.to_rr(name))`)
+                else:
+                    visited.append(src is not None)
+        ctx.check(bool(visited) and all(visited), "C14.5", "%s:all-records" % A.short(g.key), "every record of every name is looked at", "only some records of a name are converted (%s)" % visited, g.loc())
         ok = table.get("v4") == (["A"], "A", "address") and table.get("v6") == (["AAAA"], "AAAA", "address")
         ctx.check(ok, "C14.2", "%s:family-table" % A.short(g.key), "A -> v4, AAAA -> v6", "zone -> hosts conversion is %s" % table, g.loc())
         if strict:
